@@ -375,4 +375,85 @@ def navHrefs (base : PathS) (top q : Node) : List Str :=
 def crumbHrefs (base : PathS) (q : Node) : List Str :=
   q.hier.map (fun h => relurl base q (base ++ nodeUrlSeg ++ h.1 ++ [htmlName indexName]))
 
+/-! ## the encoding handed down the walk
+
+`get_page_tree` and `PageNode` take the project's `encoding` as a per-call argument; every file is
+decoded with whatever value arrives at the `PageNode(...)` call that reads it.  The page directory
+on disk is a tree of `RawEntry`: a file carries the encoding its bytes were written in (`[]` = pure
+ASCII, readable under every encoding FORD is used with) and the metadata it holds when decoded
+correctly.  Reading a non-ASCII file with another encoding raises (`UnicodeDecodeError`, a
+`ValueError`: caught by the same handlers as "no title") - exact for the combinations the harness
+generates (bytes that are invalid UTF-8 read as UTF-8), an over-approximation otherwise (mojibake).
+The call sites (which expression each call passes for which parameter) are the generated tables. -/
+
+/-- `(pt! "abc")` is the literal `['a', 'b', 'c']` -/
+macro "pt! " s:str : term => do
+  let elems := s.getString.toList.toArray.map fun c => Lean.Syntax.mkCharLit c
+  `([$elems,*])
+
+inductive RawEntry where
+  | dir (name : Str) (children : List RawEntry)
+  | file (name : Str) (wenc : Str) (m : Meta)
+
+/-- the calls by which one level of the walk hands its arguments to the next -/
+structure CallSites where
+  gptParams : List (Str × Str)
+  pageNodeParams : List (Str × Str)
+  recCall : List (Str × Str)
+  indexNodeCall : List (Str × Str)
+  subNodeCall : List (Str × Str)
+  readTextArg : Str
+
+/-- the call sites of the source under test -/
+def CallSites.gen : CallSites :=
+  ⟨Gen.C17.gptParams, Gen.C17.pageNodeParams, Gen.C17.recCall, Gen.C17.indexNodeCall,
+   Gen.C17.subNodeCall, Gen.C17.readTextArg⟩
+
+/-- the parameter that carries the encoding (same name in `get_page_tree` and `PageNode.__init__`) -/
+def encParam : Str := pt! "encoding"
+
+/-- value of a (string-valued) argument expression where the caller's own parameters have the values
+    `env`: `'text` is a literal, a name is looked up, anything else is unknown (`[]`) -/
+def evalExpr (env : List (Str × Str)) : Str → Str
+  | '\'' :: lit => lit
+  | ex => (env.lookup ex).getD []
+
+/-- value that parameter `p` of a callee (parameter list `params`) receives from the call `call` -/
+def argValue (params call env : List (Str × Str)) (p : Str) : Str :=
+  match call.lookup p with
+  | some ex => evalExpr env ex
+  | none => (match params.lookup p with | some d => evalExpr [] d | none => [])
+
+/-- `encoding` of the recursive call when the current call runs with `enc` -/
+def CallSites.encRec (c : CallSites) (enc : Str) : Str :=
+  argValue c.gptParams c.recCall [(encParam, enc)] encParam
+
+/-- the encoding `read_text` gets inside a `PageNode(...)` made by `call` -/
+def CallSites.encNode (c : CallSites) (call : List (Str × Str)) (enc : Str) : Str :=
+  evalExpr [(encParam, argValue c.pageNodeParams call [(encParam, enc)] encParam)] c.readTextArg
+
+def CallSites.encIndex (c : CallSites) (enc : Str) : Str := c.encNode c.indexNodeCall enc
+def CallSites.encSub (c : CallSites) (enc : Str) : Str := c.encNode c.subNodeCall enc
+
+/-- `Path(path).read_text(enc)` succeeds -/
+def readable (enc wenc : Str) : Bool := wenc.isEmpty || wenc == enc
+
+/-- what `PageNode` sees of a file: its metadata, or (decoding raised) nothing that has a title -/
+def readMeta (enc wenc : Str) (m : Meta) : Meta :=
+  if readable enc wenc then m else { m with title := none }
+
+mutual
+/-- the directory as the walk reads it when the call for the enclosing directory runs with `enc` -/
+def decodeE (c : CallSites) (enc : Str) : RawEntry → Entry
+  | .file n w m => .file n (readMeta (if n == indexName then c.encIndex enc else c.encSub enc) w m)
+  | .dir n cs => .dir n (decodeL c (c.encRec enc) cs)
+def decodeL (c : CallSites) (enc : Str) : List RawEntry → List Entry
+  | [] => []
+  | e :: es => decodeE c enc e :: decodeL c enc es
+end
+
+/-- `get_page_tree(page_dir, ..., encoding=enc)` on the directory as it is on disk -/
+def getPageTreeRaw (c : CallSites) (v : Variant) (enc : Str) (cs : List RawEntry) : Res :=
+  getPageTree v (decodeL c enc cs)
+
 end Ford.PT
